@@ -1,6 +1,10 @@
 (* Model of furax/_base/config.py (Config, ConfigState, _config_var) and of the capture of the
-   active configuration by InverseOperator.__init__ (furax/_base/core.py).  Definitions only. *)
-From Coq Require Import ZArith List Bool.
+   active configuration by InverseOperator.__init__ (furax/_base/core.py), and of what happens to
+   the captured configuration AFTER the creation: embedding in expressions + reduce(), pytree round
+   trips, .I.I, application eagerly / under jit (closed over or passed as an argument, where the
+   configuration is a static pytree field compared by ConfigState.__eq__) / through as_matrix.
+   Definitions only. *)
+From Coq Require Import ZArith List Bool Arith.
 Import ListNotations.
 Open Scope Z_scope.
 
@@ -22,11 +26,48 @@ Definition replace (c : cfg) (k : kw) : cfg := fold_left set1 k c.
 (* the module-level default ConfigState() *)
 Definition default_cfg : cfg := mkCfg 0 0 0 0.
 
+(* ConfigState.__eq__ (dataclass-generated: the tuples of ALL the fields are compared; the harness
+   ties this to the dataclass parameters and field flags of the real class on every run).  It is
+   what JAX's jit cache uses to compare the static field InverseOperator.config. *)
+Definition cfg_eqb (a b : cfg) : bool :=
+  (c_solver a =? c_solver b) && (c_throw a =? c_throw b) &&
+  (c_options a =? c_options b) && (c_callback a =? c_callback b).
+
+(* The cache of the jitted function number fn, `jitted_fn(operator, x) = operator(x)`: one entry
+   per configuration it has been traced with (the configuration is part of the tree structure
+   of the argument: a static field).  A call whose operator carries a configuration EQUAL (eqb)
+   to a cached one runs the computation traced for the cached one.  [The structure of the
+   expression is part of the key as well; it is left out here: it can only make hits rarer.] *)
+Definition jit_lookup (eqb : cfg -> cfg -> bool) (fn : nat) (c : cfg) (cache : list (nat * cfg))
+  : option cfg :=
+  option_map snd (find (fun p => Nat.eqb (fst p) fn && eqb c (snd p)) cache).
+(* what the cache would do if ConfigState.__eq__ ignored solver_options (compare=False) *)
+Definition eqb_ignoring_options (a b : cfg) : bool :=
+  (c_solver a =? c_solver b) && (c_throw a =? c_throw b) && (c_callback a =? c_callback b).
+
 (* One thread / context: the value of the context variable, the tokens held by the `with`
-   statements that are open (innermost first: token.old_value), and the configurations captured
-   by the lazy inverses created so far (in creation order). *)
-Record tstate := mkT { cur : cfg; stack : list cfg; invs : list cfg }.
-Definition init : tstate := mkT default_cfg [] [].
+   statements that are open (innermost first: token.old_value), the configurations captured
+   by the lazy inverses created so far and by the objects derived from them (in creation order),
+   and the cache of the jitted functions the history owns. *)
+Record tstate := mkT { cur : cfg; stack : list cfg; invs : list cfg; jcache : list (nat * cfg) }.
+Definition init : tstate := mkT default_cfg [] [] [].
+
+(* Ways of deriving a new object from object number i (a lazy inverse or an expression holding one):
+   DReduce     an expression holding it is built (the object alone, compositions on either side,
+               scalar multiple, sum, block diagonal / column / row) and .reduce() is called:
+               AbstractLinearOperator.reduce is `return self` for the lazy inverse, the containers
+               rebuild themselves around the SAME inverse object;
+   DRoundTrip  jax.tree.unflatten(jax.tree.flatten(object)): equinox rebuilds the module without
+               calling __init__, the static field `config` travels in the tree structure;
+   DInvInv     inverse.I.I: `.I` of the lazy inverse is its operand (AbstractLazyInverseOperator.inverse),
+               whose `.I` is a NEW lazy inverse: it captures the configuration active now. *)
+Inductive derivation := DReduce | DRoundTrip | DInvInv.
+(* Ways of applying object number i to a vector *)
+Inductive route :=
+| REager                (* object(y) *)
+| RJitClosure           (* jax.jit(lambda v: object(v))(y): a fresh jitted function closing over it *)
+| RJitArg (fn : nat)    (* jitted_fn(object, y): passed as an ARGUMENT to the history's jitted function fn *)
+| RMatrix.              (* (object @ column(y)).as_matrix(): the generic as_matrix (fori_loop over mv) *)
 
 Inductive event :=
 | Enter (k : kw)        (* with Config(kwargs k): Config.__init__ then __enter__ *)
@@ -34,19 +75,42 @@ Inductive event :=
 | ExitExc               (* __exit__(exc_type, exc, tb): same code path, the exception propagates *)
 | NewInverse            (* InverseOperator(op): stores Config.instance() *)
 | ApplyInverse (i : nat) (* inverse number i is applied: which configuration does it use? *)
-| Read.                 (* Config.instance() *)
+| Read                  (* Config.instance() *)
+| Derive (d : derivation) (i : nat)  (* a new object is derived from object i, under the active configuration *)
+| ApplyVia (r : route) (i : nat).    (* object number i is applied through route r *)
 
 Definition step (s : tstate) (e : event) : tstate * option cfg :=
   match e with
-  | Enter k => (mkT (replace (cur s) k) (cur s :: stack s) (invs s), None)
+  | Enter k => (mkT (replace (cur s) k) (cur s :: stack s) (invs s) (jcache s), None)
   | Exit | ExitExc =>
       match stack s with
-      | old :: st => (mkT old st (invs s), None)
+      | old :: st => (mkT old st (invs s) (jcache s), None)
       | [] => (s, None)   (* no open block: excluded by well-nestedness *)
       end
-  | NewInverse => (mkT (cur s) (stack s) (invs s ++ [cur s]), None)
+  | NewInverse => (mkT (cur s) (stack s) (invs s ++ [cur s]) (jcache s), None)
   | ApplyInverse i => (s, nth_error (invs s) i)
   | Read => (s, Some (cur s))
+  | Derive d i =>
+      match nth_error (invs s) i with
+      | Some c =>
+          (mkT (cur s) (stack s)
+               (invs s ++ [match d with DInvInv => cur s | DReduce | DRoundTrip => c end]) (jcache s),
+           None)
+      | None => (s, None)   (* no such object: nothing is derived *)
+      end
+  | ApplyVia r i =>
+      match nth_error (invs s) i with
+      | None => (s, None)
+      | Some c =>
+          match r with
+          | RJitArg fn =>
+              match jit_lookup cfg_eqb fn c (jcache s) with
+              | Some c' => (s, Some c')   (* cache hit: the computation traced for c' runs *)
+              | None => (mkT (cur s) (stack s) (invs s) (jcache s ++ [(fn, c)]), Some c)
+              end
+          | REager | RJitClosure | RMatrix => (s, Some c)
+          end
+      end
   end.
 
 Fixpoint run (s : tstate) (h : list event) : tstate * list (option cfg) :=
@@ -67,6 +131,23 @@ Fixpoint track (h : list event) (ks : list kw) : option (list kw) :=
   end.
 Definition well_nested (h : list event) : Prop := track h [] = Some [].
 
+(* Provenance: for every object (in creation order) the position in the history of the creation
+   event its configuration must come from - the NewInverse it descends from through any chain of
+   reductions / round trips, or the `.I.I` that made a new lazy inverse. *)
+Definition pstep (st : nat * list nat) (e : event) : nat * list nat :=
+  let (n, acc) := st in
+  (S n,
+   match e with
+   | NewInverse => acc ++ [n]
+   | Derive d i =>
+       match nth_error acc i with
+       | Some p => acc ++ [match d with DInvInv => n | DReduce | DRoundTrip => p end]
+       | None => acc
+       end
+   | _ => acc
+   end).
+Definition prov (h : list event) : list nat := snd (fold_left pstep h (0%nat, [])).
+
 (* Several threads / contexts: each has its own binding of the context variable.
    Fork t t' : context t' starts as a copy of context t (contextvars.copy_context);
    a new thread starts from `init` (threading.Thread runs in a fresh context). *)
@@ -77,7 +158,7 @@ Definition upd (g : gstate) (t : nat) (s : tstate) : gstate :=
 Definition gstep (g : gstate) (e : gevent) : gstate * option (nat * option cfg) :=
   match e with
   | Ev t e => let (s, o) := step (g t) e in (upd g t s, Some (t, o))
-  | Fork t t' => (upd g t' (mkT (cur (g t)) [] []), None)
+  | Fork t t' => (upd g t' (mkT (cur (g t)) [] [] []), None)
   | Spawn t => (upd g t init, None)
   end.
 Fixpoint grun (g : gstate) (l : list gevent) : gstate * list (nat * option cfg) :=
@@ -126,6 +207,11 @@ Definition effects (fails : Z -> Z -> bool) (os : list (option cfg)) : list (opt
   map (option_map (mv fails)) os.
 
 (* printable observation for the correspondence harness *)
+Definition eq_fields (a b : list Z) : bool :=
+  match a, b with
+  | [a1; a2; a3; a4], [b1; b2; b3; b4] => cfg_eqb (mkCfg a1 a2 a3 a4) (mkCfg b1 b2 b3 b4)
+  | _, _ => false
+  end.
 Definition show_cfg (c : cfg) : list Z := [c_solver c; c_throw c; c_options c; c_callback c].
 Definition show_obs (o : option cfg) : list Z := match o with Some c => show_cfg c | None => [] end.
 Definition run_single (h : list event) : list (list Z) * list Z :=
